@@ -12,7 +12,10 @@ use std::sync::{Arc, Mutex as StdMutex};
 
 pub struct C04Lock;
 
-pub const SAMPLE_EVERY: u64 = 20;
+/// every 50th history of the quick tier (3 200 DAGs), every 20th of the thorough tier (150 000)
+fn sample_every(tier: Tier) -> u64 {
+    tier.pick(50, 20)
+}
 
 fn run_inside_shuttle(plan: &Plan, out: &mut RunOut) {
     // every mutex operation is a scheduling point here: rendering costs several times more CPU
@@ -66,7 +69,7 @@ impl Engine for C04Lock {
         "exploration"
     }
     fn rule(&self) -> String {
-        format!("lock-discipline leg: every {}th history of the main engine, executed inside a shuttle execution with the context mutex owned by shuttle", SAMPLE_EVERY)
+        "lock-discipline leg: every 50th (quick) / 20th (thorough) history of the main engine, executed inside a shuttle execution with the context mutex owned by shuttle".to_owned()
     }
     fn assumptions(&self) -> Vec<String> {
         vec!["single simulated thread: only re-entrant locking is visible here; cross-thread lock behaviour is C20's subject".into()]
@@ -85,7 +88,7 @@ impl Engine for C04Lock {
         120
     }
     fn run(&self, run: u64, seed: u64, tier: Tier, out: &mut RunOut) {
-        if run % SAMPLE_EVERY != 0 {
+        if run % sample_every(tier) != 0 {
             return;
         }
         let plan = C04::plan_for(seed, tier);
